@@ -169,7 +169,16 @@ pub fn c03(f: &Facts, o: &Outcome) -> Vec<String> {
         }
         _ => {}
     }
-    if (v.discover.is_err() || v.filter.is_err() || v.select.is_err()) && !transfers.is_empty() && selected { why.push("Transfer although discovery, filtering or selection failed".into()); }
+    // a failed step ends the routing: nothing is offered to the later steps and no Transfer is sent
+    if v.discover.is_err() && !calls(o, "call:discover").is_empty() {
+        if !calls(o, "call:filter:").is_empty() || !calls(o, "call:select:").is_empty() { why.push("discovery failed, yet the filters or the strategy were offered a candidate list".into()); }
+        if !transfers.is_empty() { why.push("Transfer although discovery failed".into()); }
+    }
+    if v.discover.is_ok() && v.filter.is_err() && !calls(o, "call:filter:").is_empty() {
+        if !calls(o, "call:select:").is_empty() { why.push("filtering failed, yet the strategy was offered a candidate list".into()); }
+        if !transfers.is_empty() { why.push("Transfer although filtering failed".into()); }
+    }
+    if v.discover.is_ok() && v.filter.is_ok() && v.select.is_err() && !transfers.is_empty() { why.push("Transfer although selection failed".into()); }
     // every Transfer is to the target the strategy chose on this connection
     if !transfers.is_empty() {
         if calls(o, "call:select:").is_empty() { why.push("Transfer although the strategy was never consulted".into()); }
@@ -216,6 +225,21 @@ pub fn c06(f: &Facts, o: &Outcome) -> Vec<String> {
         let step = o.event_steps[i];
         let sent_before = |pred: &dyn Fn(&[u8]) -> bool| f.sc.steps.iter().take(step + 1).any(|s| matches!(s, Step::Frame(p) if pred(p)));
         if !sent_before(&|p| p == [3u8]) || !sent_before(&|p| p.first() == Some(&0) && p.len() > 8) { why.push("discovery started before Login Acknowledged and Client Information".into()); }
+    }
+    // the Status Response answers a Status Request: neither it nor the status service's call comes before the request was sent
+    // (judged only on scenarios made of whole frames, where "sent before" is unambiguous)
+    let whole_frames = f.sc.steps.iter().all(|s| matches!(s, Step::Frame(_) | Step::EncResp(_) | Step::KeepAlive(_) | Step::Tick | Step::AdapterDone | Step::Eof | Step::Wait(_)));
+    if whole_frames {
+        let first = |pred: &dyn Fn(&Event) -> bool| pos(o, pred).map(|i| o.event_steps[i]);
+        // the handshake is the first frame with packet id 0, the Status Request the second (whatever way its id is spelt)
+        let id0 = |p: &[u8]| { let mut v: u32 = 0; for (i, b) in p.iter().take(5).enumerate() { v |= u32::from(b & 0x7f) << (7 * i); if b & 0x80 == 0 { return v == 0; } } false };
+        let asked = |upto: usize| f.sc.steps.iter().take(upto + 1).filter(|s| matches!(s, Step::Frame(p) if id0(p))).count() >= 2;
+        if let Some(st) = first(&|e| matches!(e, Event::Send(CbPacket::StatusResponse(_)))) { if !asked(st) { why.push("Status Response sent although no Status Request had been sent yet".into()); } }
+        if let Some(st) = first(&|e| matches!(e, Event::Call(c) if c.starts_with("call:status:"))) { if !asked(st) { why.push("the status service was asked although no Status Request had been sent yet".into()); } }
+    }
+    // a login that the handler reports as completed ended with the Transfer (or a Disconnect): a logged-in client is never left without either
+    if o.result == "ok" && f.intent != 1 && ss.iter().any(|p| matches!(p, CbPacket::LoginSuccess { .. })) && !matches!(ss.last(), Some(CbPacket::Transfer { .. } | CbPacket::Disconnect(_))) {
+        why.push(format!("the handler finished a login normally, but the last packet is {} — neither Transfer nor Disconnect", ss.last().map_or("none".to_string(), |p| p.canonical().chars().take(30).collect())));
     }
     // an unexpected packet ends the connection without a reply
     if o.result == "err:unexpected-id" || o.result == "err:illegal-enum" {
